@@ -19,3 +19,4 @@ pub mod tree;
 pub mod util;
 pub mod fuzzdec;
 pub mod dict;
+pub mod fuzzrun;
